@@ -39,4 +39,16 @@ CHECKS = {
         quick=dict(tests=[dict(name="TestC04", cases=16000)]),
         thorough=dict(tests=[dict(name="TestC04", cases=320000)]),
     ),
+    "C10": dict(
+        level="exploration",
+        rule=("Inputs: transactions with 1-5 bookings over all five account types (incl. equity and the accrual account itself), quantities with up to 12 decimals, "
+              "negative and zero amounts, @accrue with every interval (the four the parser accepts through parsed text; once/yearly through hand-built syntax nodes), "
+              "windows with start<=end placed independently of the transaction date. Oracle (library: transaction.Create; CLI: knut print read by the harness's own reader): "
+              "every generated transaction balances per commodity; per (account != accrual account, commodity) the total equals the original; the accrual account nets to zero; "
+              "income/expense legs appear once per period of the reference partition dated at the period ends, all other legs on the original date. "
+              "Non-trivial: >=2 periods and (amount not divisible at one decimal, negative amount, >=2 bookings, or an equity leg); distinct by transaction."),
+        assumptions=["equal-sized parts are not asserted (not promised by the statement)", "windows with start>end are outside the property (C14 covers the crash)"],
+        quick=dict(tests=[dict(name="TestC10", cases=160000), dict(name="TestC10CLI", cases=1600)]),
+        thorough=dict(tests=[dict(name="TestC10", cases=3200000), dict(name="TestC10CLI", cases=32000)]),
+    ),
 }
